@@ -5,6 +5,7 @@ import (
 	"math/rand"
 	"net"
 	"regexp"
+	"runtime"
 	"strconv"
 	"strings"
 	"time"
@@ -53,6 +54,22 @@ func c36Get(flavour string) *c36Node {
 	return x
 }
 
+// c36Wait polls cond: first by yielding (cheap when the other goroutine is runnable), then sleeping.
+func c36Wait(cond func() bool, limit time.Duration) bool {
+	t0 := time.Now()
+	for i := 0; !cond(); i++ {
+		if i < 2000 {
+			runtime.Gosched()
+			continue
+		}
+		if time.Since(t0) > limit {
+			return false
+		}
+		time.Sleep(20 * time.Microsecond)
+	}
+	return true
+}
+
 var c36Tally = regexp.MustCompile(`(majority|minority) in name conflict resolution.*\[(\d+) / (\d+)\]`)
 
 // returns (result, ok); ok=false: the case must be retried (a reply missed the real deadline)
@@ -85,9 +102,7 @@ func (x *c36Node) vote(replies [][]byte, timer bool) (string, bool) {
 	}
 	for i, p := range replies {
 		x.n.msg(serf.VerifEncodeQueryResponse(oq.LTime, oq.ID, fmt.Sprintf("r%d", i), false, p))
-		for serf.VerifQueryBacklog(oq.Resp) > 0 {
-			time.Sleep(5 * time.Microsecond)
-		}
+		c36Wait(func() bool { return serf.VerifQueryBacklog(oq.Resp) == 0 }, 5*time.Second)
 	}
 	late := false
 	if timer {
@@ -209,7 +224,7 @@ func c36Reply(rng *rand.Rand, kind int) (payload []byte, class string, valid boo
 
 func c36Gen(rng *rand.Rand, tier string) []Case {
 	var out []Case
-	n, nt := 1500, 40
+	n, nt := 800, 24
 	if tier == "thorough" {
 		n, nt = 60000, 600
 	}
